@@ -33,5 +33,15 @@ Theorem ldpc_last_null_claim_is_true_of_the_construction :
   forall cw : nat -> Sy, (forall row, In row (rws m) -> rowsum Sy sxor s0 cw row = s0) -> cw (r - 1) = s0.
 Proof. exact pchk_last_repair_null_s. Qed.
 
+(* what the control parameter answers is that claim: the case of of_ldpc_staircase_get_control_parameter is regenerated
+   from the source on every run (gen/GenClaim.v) and proved to compute last_symbol_null_claim (ClaimTie.v) *)
+From Coq Require Import ZArith.
+From OFV Require Import ClaimTie.
+From OFV.gen Require Import GenClaim.
+Theorem the_control_parameter_answers_the_claim : forall (n1 : nat) (extra : bool), n1 < 256 ->
+  is_last_symbol_null_case (Z.of_nat n1) (if extra then 1%Z else 0%Z) = Some (if last_symbol_null_claim n1 extra then 1%Z else 0%Z).
+Proof. exact is_last_symbol_null_answers_the_claim. Qed.
+
 Print Assumptions last_repair_is_null.
 Print Assumptions ldpc_last_null_claim_is_true_of_the_construction.
+Print Assumptions the_control_parameter_answers_the_claim.
